@@ -154,7 +154,8 @@ static void observe(struct vh_buf *b)
 	ng = 0;
 	if (conf) {
 		rtr_mgr_for_each_group(conf, group_cb, NULL);
-		vh_bput(b, ",\"gst\":[%s],\"first\":%d", gbuf.p ? gbuf.p : "", rtr_mgr_get_first_group(conf)->preference);
+		vh_bput(b, ",\"gst\":[%s],\"first\":%d,\"insync\":%s", gbuf.p ? gbuf.p : "", rtr_mgr_get_first_group(conf)->preference,
+			rtr_mgr_conf_in_sync(conf) ? "true" : "false");
 	}
 	vh_bput(b, ",\"reports\":[%s],\"started\":[%s],\"stopped\":[%s],\"run\":[", reports.p ? reports.p : "",
 		started.p ? started.p : "", stopped.p ? stopped.p : "");
